@@ -3,7 +3,6 @@
 #include "common/bppcommon.hpp"
 
 #include <Bpp/Numeric/AbstractParameterAliasable.h>
-#include <sys/resource.h>
 
 using namespace bpp;
 using namespace std;
@@ -94,24 +93,9 @@ void audit(vf::Ctx& c, Obj& o, const Model& m, const char* where) {
   }
 }
 
-// run `fn` in a forked child first, under a CPU-time limit (not wall clock: machine load must not look like a hang);
-// returns false if the child exhausted `cpuS` seconds of CPU time
-bool terminatesForked(const function<void()>& fn, int cpuS) {
-  fflush(nullptr);
-  pid_t pid = fork();
-  if (pid < 0) return true;
-  if (pid == 0) {
-    struct itimerval it; memset(&it, 0, sizeof it); setitimer(ITIMER_PROF, &it, nullptr); signal(SIGPROF, SIG_IGN);
-    struct rlimit rl; rl.rlim_cur = static_cast<rlim_t>(cpuS); rl.rlim_max = static_cast<rlim_t>(cpuS) + 1; setrlimit(RLIMIT_CPU, &rl);
-    try { fn(); } catch (...) {}
-    _exit(0);
-  }
-  int st = 0; waitpid(pid, &st, 0);
-  return WIFEXITED(st);
-}
 }  // namespace
 
-LAW(L1_alias_history, RC, 20000, 1000000, 300, "history with a chain of length >=2, or a copy/assignment after >=1 link, or a refused request, or a bulk map whose first key's source is itself a key", 5, true) {
+LAW(L1_alias_history, RC, 60000, 2000000, 300, "history with a chain of length >=2, or a copy/assignment after >=1 link, or a refused request, or a bulk map whose first key's source is itself a key", 5, true) {
   vector<unique_ptr<Obj>> O; vector<Model> M; O.reserve(4); M.reserve(4);
   {
     Model m; m.ns = c.oneIn(3) ? "ns." : ""; m.n = c.irange(2, 6);
